@@ -9,7 +9,27 @@ import itertools
 from cotengra.utils import get_symbol
 
 
+# Which characters the natural indices are shown to cotengra as. The properties quantify over
+# arbitrary hashable / unicode labels, so besides plain ascii ("ascii": a, b, c, …) a case can use
+# "mixed" (some indices ascii, the others far beyond the 52 ascii letters) or "shifted" (a block that
+# straddles the ascii / non-ascii border of get_symbol). One alphabet is in force per case.
+_ALPHABET = {"mode": "ascii", "salt": 0}
+ALPHABETS = ("ascii", "ascii", "mixed", "shifted")
+
+
+def set_alphabet(mode="ascii", salt=0):
+    _ALPHABET["mode"] = mode if mode in ("ascii", "mixed", "shifted") else "ascii"
+    _ALPHABET["salt"] = int(salt)
+
+
 def sym(i):
+    mode = _ALPHABET["mode"]
+    if mode == "mixed":
+        if ((i * 2654435761 + _ALPHABET["salt"]) >> 4) % 2:
+            return get_symbol(i + 200)
+        return get_symbol(i)
+    if mode == "shifted":
+        return get_symbol(i + 47)
     return get_symbol(i)
 
 
